@@ -19,7 +19,7 @@ from sympy.logic import And, Not, Or, false, true
 
 from . import TypeErrorException, _eq, _neq
 from .qint import QintImp
-from .qtype import Qtype, TExp, bin_to_bool_list, bool_list_to_bin
+from .qtype import Qtype, TExp, bool_list_to_bin
 
 
 class QfixedImp(float, Qtype):
@@ -75,9 +75,10 @@ class QfixedImp(float, Qtype):
         return cls(integer_value + fractional_value)
 
     def to_bool(self) -> List[bool]:
-        integer_part = bin_to_bool_list(
-            bin(int(self.value))[::-1], self.BIT_SIZE_INTEGER
-        )
+        integer_value = int(self.value)
+        integer_part = [
+            (integer_value >> i) & 1 == 1 for i in range(self.BIT_SIZE_INTEGER)
+        ]
 
         fractional_part = []
         c_val = self.value
